@@ -560,3 +560,7 @@ Definition c19_e2e_sb (c : cfg) (init : N) (hist : list round_obs) (sizes : list
     negb (continue_after c init hist k) &&
     (samples =? total_len (kept_of c hist)) &&
     (iters =? samples * last sizes 0).
+
+(** C03, the reported figures of a collection of [m] samples of size [s]
+    ([SampleCollection::iter_count] is a u64 product): samples = m, iters = s*m. *)
+Definition c03_fig_sb (s m samples iters : N) : bool := (samples =? m) && (iters =? s * m).
